@@ -12,6 +12,14 @@ violation (that would be C09 / C02 territory). Every case is a literal dict (sou
 cut list, restore API per generation, state transport per generation, threads, ...), so
 replay is exact (threaded cases: best effort, the interleaving is the OS's).
 
+Two additions to the twin oracle: (1) state idempotence - the state read from a freshly
+restored iterator, before it delivers anything, equals the state it was restored from
+(checked at every restore of the data-source and pipeline cases); (2) part D, long chains
+of successive restores (restore, advance 0-2 elements, checkpoint, repeat, 100-1100
+times) over sharded and unsharded sources, bare and inside a pipeline: elements exactly
+once and in order, the final aggregate, the idempotence law, and no failure of `.state`,
+`from_state` or of the state transport at any depth.
+
 Mechanism keys are derived from the case class (source kind / nesting, generation of the
 restore, ignored source error before the cut, threads, stage of the aggregate, slices,
 second restore from one checkpoint object) plus a coarse symptom. The triaged genuine
@@ -61,7 +69,15 @@ RULE = (
     'fixed source list, all single cuts, all cut pairs for short streams, a subset of '
     'cut triples), two restores from one checkpoint object (double_restore), threads '
     '(seeded random (source, k, cut, sleep) cases), and seeded random larger cases '
-    '(thorough: n <= 40, <= 5 generations, nesting depth 3). non-trivial = some checkpoint '
+    '(thorough: n <= 40, <= 5 generations, nesting depth 3), and long chains of successive '
+    'restores (part D; per chunk one bare SequenceDataSource chain of 1100 restores, sharded or not, '
+    'pipelines of 300 restores with the state passed as is / deep-copied / pickled, one '
+    'ShardedIterable chain of 250 restores, and 10 (thorough: 60) seeded random chains of 100-400 '
+    'restores over seq / seqs / iter sources with shard paths of depth 0-2, bare or inside a '
+    'pipeline of a shape without upstream aggregate; 0-2 elements are delivered between two '
+    'restores, the restore form is fixed or drawn per restore). At every restore of parts A, B '
+    'and D the state read back from the restored iterator is compared with the state restored '
+    'from (state_idempotence_checks). non-trivial = some checkpoint '
     'strictly inside the stream; distinct = the tuple itself; cases with >= 2 checkpoints '
     'are counted separately (second_generation_cases)')
 ASSUMPTIONS = [
@@ -99,6 +115,16 @@ ASSUMPTIONS = [
     'watchdog is inconclusive',
     'the returned value of the iterator (StopIteration.value = AggregateResult) is '
     'compared as a second form of the final aggregate',
+    'state idempotence: a restored iterator that has not delivered anything reports the state '
+    'it was restored from (it.from_state(s).state == s, same for the data-source forms and for '
+    'pipeline iterators, whose state also holds the aggregation state); states are compared as '
+    'plain structures (recorded (shard_index, num_shards, start_index) chains root first, '
+    'aggregation states by repr), never with the library\'s own __eq__ (whose recursion depth '
+    'would depend on the depth of the state)',
+    'long chains (part D): pipelines use shapes without an aggregate in a non-final stage (so '
+    'that the recorded upstream-aggregate finding is not mixed in), num_threads 0; a failure of '
+    'copy.deepcopy / pickle of a captured state counts as a failure of checkpointing (a '
+    'checkpoint exists to be stored); the recursion limit is the interpreter default',
     'key-path shapes: the aggregate output key is tree.Key.new(\'out\', \'agg\') (its '
     'result is read from the nested result {\'out\': {\'agg\': ..}}) and / or the records '
     'are nested batches {\'x\': {\'v\', \'f\', \'g\'}} aggregated over Key.new(\'x\', \'v\') '
@@ -120,6 +146,11 @@ REQUIRED = [
     'thread_checks', 'thread_k1_checks', 'thread_k2_checks', 'thread_k3_checks',
     'thread_original_continues_checks', 'second_generation_cases', 'rebatch_restore_checks',
     'pipe_keypath_checks', 'pipe_keypath_state_captures', 'pipe_keypath_slicer_checks',
+    'state_idempotence_checks', 'long_chain_cases', 'long_chain_restores',
+    'long_chain_bare_cases', 'long_chain_pipe_cases', 'long_chain_sharded_cases',
+    'long_chain_unsharded_cases', 'long_chain_seq_cases', 'long_chain_iter_cases',
+    'long_chain_pipe_seq_cases_of_250_or_more_restores',
+    'long_chain_bare_seq_cases_of_1000_or_more_restores',
 ]
 EXHAUSTIVE = {'quick': True, 'thorough': True}
 CHUNK_TIMEOUT_S = {'quick': 240, 'thorough': 3000}
@@ -137,6 +168,7 @@ K_ALIAS = 'restore-aliases-checkpoint-agg-state'
 K_RET = 'restored-iterator-returns-no-aggregate-result'
 K_DIT = 'data-iterator-state-before-first-next-forgets-restored-position'
 K_KEYCOPY = 'key-path-not-deep-copyable-breaks-iterator-state'
+K_GROW = 'from-state-grows-state-by-one-level-per-restore'
 
 
 def _exc_mech(shape, e, default):
@@ -167,6 +199,39 @@ def _viol(ctx, kind, case, detail, mechanism):
   seen[(kind, mechanism)] = seen.get((kind, mechanism), 0) + 1
   if seen[(kind, mechanism)] <= WITNESSES_PER_CLASS:
     ctx.violation(kind, case, detail, mechanism=mechanism)
+
+
+def _brief_shape(shape, limit=400):
+  text = repr(shape)
+  return text if len(text) <= limit else text[:limit // 2] + ' ... ' + text[-limit // 2:]
+
+
+def check_state_law(ctx, case, cfg, r, restored_from, read_back, cls):
+  """State idempotence: the state read from a freshly restored iterator (nothing
+  delivered yet) equals the state it was restored from. Returns 'ok' | 'grew' |
+  'differs'. (Compared as plain structures: the recorded parent chains are walked
+  iteratively, so the comparison itself does not depend on their depth.)
+
+  Key: input class = SequenceDataSource family; signature = the two states are
+  equal once the ShardConfig(0, 1, 0) levels at the root end of the recorded
+  parent chains are dropped, i.e. the restore only ADDED such levels."""
+  ctx.count('state_idempotence_checks')
+  a, b = L.state_shape(restored_from), L.state_shape(read_back)
+  if a == b:
+    return 'ok'
+  grew = cfg['kind'] in ('seq', 'seqs') and L.strip_shape(a) == L.strip_shape(b)
+  mech = K_GROW if grew else f'{cls}-state-read-back-after-restore-differs'
+  seen = ctx.__dict__.setdefault('_c10_seen', {})
+  if seen.get(('state_idempotence', mech), 0) >= WITNESSES_PER_CLASS:
+    # counted like _viol does; the literal detail is only built for kept witnesses
+    ctx.count('viol:' + mech)
+    seen[('state_idempotence', mech)] += 1
+  else:
+    _viol(ctx, 'state_idempotence', case,
+          {'restore': r, 'restored_from': _brief_shape(a), 'read_back': _brief_shape(b),
+           'depth_restored_from': L.state_depth(restored_from),
+           'depth_read_back': L.state_depth(read_back)}, mech)
+  return 'grew' if grew else 'differs'
 
 
 # ---------------------------------------------------------------------------
@@ -313,6 +378,7 @@ def check_src_case(ctx, case):
       api = apis[r_next - 1]
       cur_ds, it = _restore_source(api, root, cur_ds, it, state)
       r = r_next
+      check_state_law(ctx, case, cfg, r, state, it.state, cls)
       ctx.count(f'gen{min(r, 3)}_restores')
       ctx.count(f'api_{api}_restores')
       ctx.count(f'xf_{xf}')
@@ -491,6 +557,7 @@ def check_pipe_case(ctx, case):
       else:
         it = it.from_state(state)
       r = r_next
+      check_state_law(ctx, case, cfg, r, state, it.state, cls)
     rest, ret = L.drain(it)
     rest = L.norm(rest)
     delivered += rest
@@ -1179,6 +1246,174 @@ def rebatch_cases(rng, count):
   return out
 
 
+# ---------------------------------------------------------------------------
+# Part D: long chains of successive restores ("any number of successive checkpoints")
+# ---------------------------------------------------------------------------
+
+LONG_SHAPES = ('single', 'named', 'noagg', 'chain_last')   # no aggregate upstream
+ITER_CONTS = ('list', 'range', 'dictkeys', 'reiter')
+
+
+def check_long_case(ctx, case):
+  """restore, advance 0-2 elements, checkpoint, repeat - hundreds of times.
+
+  Oracle: the elements are delivered exactly once and in order (and the final
+  aggregate equals the uninterrupted one), the state read back right after every
+  restore equals the state restored from, and neither .state nor from_state (nor
+  carrying the state through the chosen transport) fails at any depth."""
+  cfg, wrap, cycles, xf = case['src'], case['wrap'], case['cycles'], case['xf']
+  api, shape, aggmode = case.get('api', 'cur.it'), case.get('shape'), case.get('agg', 'inplace')
+  pipe = wrap == 'pipe'
+  cls = 'long-chain-' + ('pipeline-' if pipe else '') + L.source_class(cfg)
+  xs = L.model_stream(cfg)
+  want, want_agg = (L.model_pipeline(shape, xs) if pipe else (xs, None))
+  rng = random.Random(case['aseed'])
+  try:
+    root, cur = L.build_source(cfg)
+    if pipe:
+      p = L.build_pipeline(shape, cur, aggmode)
+      it0 = p.make().iterate()
+      full, _ = L.drain(it0)
+      full, agg0 = L.norm(full), L.norm_agg(it0.agg_result)
+    else:
+      full, agg0 = L.norm(list(cur)), None
+  except Exception as e:  # pylint: disable=broad-exception-caught
+    _viol(ctx, 'exception', case, {'where': 'uninterrupted', 'err': repr(e)[:300]},
+          f'{cls}-uninterrupted-run-raises')
+    return
+  ctx.case(('long', L.cfg_desc(cfg), wrap, shape, aggmode, cycles, xf, api, case['aseed']),
+           len(want) >= 2 and cycles >= 2)
+  _sample(ctx, case, True)
+  if full != want or agg0 != want_agg:
+    ctx.inconclusive_case('uninterrupted run differs from the model', case)
+    return
+  seq_family = cfg['kind'] in ('seq', 'seqs')
+  ctx.count('long_chain_cases')
+  ctx.count('long_chain_pipe_cases' if pipe else 'long_chain_bare_cases')
+  ctx.count('long_chain_sharded_cases' if cfg.get('path') else 'long_chain_unsharded_cases')
+  ctx.count(f'long_chain_{cfg["kind"]}_cases')
+  if seq_family and pipe and cycles >= 250:
+    ctx.count('long_chain_pipe_seq_cases_of_250_or_more_restores')
+  if seq_family and not pipe and cycles >= 1000:
+    ctx.count('long_chain_bare_seq_cases_of_1000_or_more_restores')
+  pos, r, where, grew, law_broken, cuts = 0, 0, 'start', False, False, []
+  depth = 0
+  try:
+    it = p.make().iterate() if pipe else cur.iterate()
+    cur_ds = cur
+    for r_next in range(1, cycles + 1):
+      c = rng.choice((0, 1, 1, 2))
+      where = 'next'
+      seg = L.norm(_take_upto(it, c))
+      cuts.append(c)
+      if seg != want[pos:pos + c]:
+        _viol(ctx, 'elements', case,
+              {'restore': r, 'position': pos, 'got': seg, 'want': want[pos:pos + c]},
+              _classify(cfg, cuts, r, seg, want, pos, c, None, 'long-chain-'))
+        return
+      pos += len(seg)
+      where = 'state'
+      state = it.state
+      where = 'transport-' + xf
+      state = L.transport(state, xf)
+      where = 'from_state'
+      how = api if api != 'mixed' else rng.choice(APIS)
+      if pipe:
+        it = (p.make().iterate().from_state(state) if how.startswith('root')
+              else it.from_state(state))
+      else:
+        cur_ds, it = _restore_source(how, root, cur_ds, it, state)
+      r = r_next
+      ctx.count('long_chain_restores')
+      where = 'state-read-back'
+      back = it.state
+      depth = L.state_depth(back)
+      if not law_broken:
+        # one report per case; the chain goes on to see what the growth leads to
+        verdict = check_state_law(ctx, case, cfg, r, state, back, cls)
+        law_broken = verdict != 'ok'
+        grew = verdict == 'grew'
+      else:
+        ctx.count('state_idempotence_checks')
+    where = 'drain'
+    rest, _ = L.drain(it) if pipe else (list(it), None)
+    rest = L.norm(rest)
+    got_agg = L.norm_agg(it.agg_result) if pipe else None
+  except Exception as e:  # pylint: disable=broad-exception-caught
+    # Input class: SequenceDataSource family and the states of THIS chain were seen
+    # growing by default root levels; symptom: the recursion limit.
+    if seq_family and grew and isinstance(e, RecursionError):
+      mech = K_GROW
+    else:
+      mech = f'{cls}-{where}-raises-{type(e).__name__}'
+    _viol(ctx, 'exception', case,
+          {'where': where, 'after_restores': r, 'depth_of_the_last_state': depth,
+           'delivered_so_far_all_correct': pos, 'err': f'{type(e).__name__}: {str(e)[:120]}'},
+          mech)
+    return
+  if rest != want[pos:]:
+    _viol(ctx, 'elements', case,
+          {'restore': r, 'position': pos, 'got': rest[:20], 'want': want[pos:][:20]},
+          _classify(cfg, cuts, r, rest, want, pos, None, None, 'long-chain-'))
+  elif pipe and got_agg != want_agg:
+    _viol(ctx, 'aggregate', case, {'got': got_agg, 'want': want_agg},
+          f'{cls}-final-aggregate-differs')
+
+
+def long_cases(rng, index, thorough):
+  """Per chunk: one bare SequenceDataSource chain of > 1000 restores, pipelines of
+  300 restores (plain and with a deep-copied state), then seeded random chains of
+  100-400 restores over all source kinds, bare and inside a pipeline."""
+  S = lambda n, path=(), **kw: dict(
+      {'kind': 'seq', 'n': n, 'cont': 'list', 'path': [list(q) for q in path]}, **kw)
+  sharded = index % 2 == 1
+  cases = [
+      {'part': 'long', 'wrap': 'bare', 'cycles': 1100, 'xf': 'none',
+       'src': S(2600, [(1, 2)]) if sharded else S(1300),
+       'api': ('cur.it', 'mixed', 'root.it', 'cur.ds')[index % 4]},
+      {'part': 'long', 'wrap': 'pipe', 'cycles': 300, 'xf': 'none',
+       'src': S(380) if sharded else S(760, [(0, 2)]),
+       'shape': LONG_SHAPES[index % 4], 'agg': ('inplace', 'functional')[index % 2],
+       'api': ('cur.it', 'root.it', 'mixed')[index % 3]},
+      {'part': 'long', 'wrap': 'pipe', 'cycles': 300, 'xf': ('deepcopy', 'pickle')[index % 2],
+       'src': S(380), 'shape': LONG_SHAPES[(index + 1) % 4], 'agg': 'functional',
+       'api': 'mixed'},
+      {'part': 'long', 'wrap': ('bare', 'pipe')[index % 2], 'cycles': 250, 'xf': XFS[index % 3],
+       'src': {'kind': 'iter', 'n': 640 if sharded else 320, 'cont': ITER_CONTS[index % 4],
+               'path': [[1, 2]] if sharded else []},
+       'shape': LONG_SHAPES[(index + 2) % 4], 'agg': 'inplace', 'api': 'mixed'},
+  ]
+  for _ in range(10 if not thorough else 60):
+    kind = rng.choice(['seq', 'seq', 'seqs', 'iter'])
+    cycles = rng.randint(100, 400)
+    k = rng.choice([1, 1, 2, 3])
+    n = (cycles + rng.randint(-40, 60)) * k
+    cfg = {'kind': kind, 'n': n, 'cont': 'list', 'path': []}
+    if kind == 'iter':
+      cfg['cont'] = rng.choice(L.ITER_CONTAINERS)
+      if k > 1:
+        cfg['path'] = [[rng.randrange(k), k]]
+    else:
+      cfg['cont'] = rng.choice(['list', 'range', 'ra', 'tuple'])
+      if kind == 'seqs':
+        a = rng.randint(0, n)
+        cfg['split'] = rng.choice([[a, n - a], [a // 2, 0, n - a // 2]])
+      if k > 1:
+        cfg['path'] = [[rng.randrange(k), k]]
+        if rng.random() < 0.3:
+          cfg['path'].append([rng.randrange(2), 2])
+    case = {'part': 'long', 'src': cfg, 'cycles': cycles,
+            'xf': rng.choice(XFS), 'api': rng.choice(['mixed', 'mixed', 'cur.it', 'root.it']),
+            'wrap': rng.choice(['bare', 'pipe'])}
+    if case['wrap'] == 'pipe':
+      case['shape'] = rng.choice(LONG_SHAPES)
+      case['agg'] = rng.choice(['inplace', 'functional'])
+    cases.append(case)
+  for case in cases:
+    case['aseed'] = rng.randrange(1 << 30)
+  return cases
+
+
 def plan(tier, seed):
   specs = []
   thorough = tier == 'thorough'
@@ -1225,6 +1460,9 @@ def plan(tier, seed):
   for j in range(2 if not thorough else 8):
     specs.append({'mode': 'rebatch', 'index': j, 'rseed': seed,
                   'count': 400 if not thorough else 4000})
+  # ---- long chains of successive restores ---------------------------------------------------
+  for j in range(4 if not thorough else 8):
+    specs.append({'mode': 'long', 'index': j, 'rseed': seed})
   # ---- seeded random larger cases ---------------------------------------------------------
   nrand = 8 if not thorough else 32
   for j in range(nrand):
@@ -1239,7 +1477,7 @@ def plan(tier, seed):
     else:
       seen_modes.add(sp['mode'])
       first.append(sp)
-  rest.sort(key=lambda sp: sp['mode'] not in ('src', 'random'))
+  rest.sort(key=lambda sp: sp['mode'] not in ('long', 'src', 'random'))
   return first + rest
 
 
@@ -1314,6 +1552,10 @@ def run_chunk(ctx, spec):
       check_thread_case(ctx, case)
   elif mode == 'random':
     _run_random(ctx, spec)
+  elif mode == 'long':
+    rng = random.Random(spec['rseed'] * 65537 + spec['index'] * 257 + 9)
+    for case in long_cases(rng, spec['index'], spec['tier'] == 'thorough'):
+      check_long_case(ctx, case)
   elif mode == 'rebatch':
     rng = random.Random(spec['rseed'] * 31337 + spec['index'] * 17 + 3)
     for case in rebatch_cases(rng, spec['count']):
@@ -1336,5 +1578,7 @@ def run_case(ctx, case):
     check_rebatch_case(ctx, case)
   elif part == 'dbl':
     check_double_restore_case(ctx, case)
+  elif part == 'long':
+    check_long_case(ctx, case)
   else:
     raise ValueError(f'unknown case part {part!r}')
